@@ -2009,7 +2009,7 @@ def gen_chain_case(rng, chk, pair=None):
         if rng.random() < 0.3:
             steps.append(rng.choice(names))
     steps = [chain_step(rng, s) for s in steps]
-    describe = rng.random() < 0.12
+    describe = rng.random() < chk.pick(0.12, 0.04)
     if lone:
         spec = gen_bs_four_phases(rng) if rng.random() < 0.6 else gen_leaf(rng, 4, kinds=("BS", "PS", "PERM", "U"))
         return {"steps": steps, "describe": describe, "top": {"id": 1, "leaf": spec, "size": gens.leaf_width(spec)}}
